@@ -110,7 +110,8 @@ impl Sc for f64 {
     }
     fn dec(self, sh: i32) -> Option<i64> {
         let y = self * 2f64.powi(-sh);
-        if !y.is_finite() || y.fract() != 0.0 || y.abs() > 9007199254740992.0 {
+        // (integers beyond 2^53 are fine as long as they are exactly representable: the round trip below decides)
+        if !y.is_finite() || y.fract() != 0.0 || y.abs() > 4611686018427387904.0 {
             return None;
         }
         let v = y as i64;
@@ -1828,7 +1829,28 @@ fn large(r: &mut Rng, thorough: bool, rr: i64) -> Vec<IP> {
     }
 }
 
+/// decimal tenths as f64: the doubles nearest to k/10 are the lattice points round(k/10 * 2^56) * 2^-56 (exact for
+/// 0.1 <= |k/10| < 32), so the integer machinery applies with sh = -56. Sets that are collinear in decimal are only
+/// NEARLY collinear as doubles, and their differences round: ordinary-looking input on which nothing is exact.
+fn decimal_tenths(r: &mut Rng) -> Vec<IP> {
+    let enc = |k: i64| ((k as f64 / 10.0) * 72057594037927936.0) as i64; // 2^56
+    let n = r.range(4, 8);
+    let (c, d) = (r.range(-20, 20), r.range(-3, 3));
+    let mut pts = vec![];
+    for _ in 0..n {
+        let kx = r.range(-30, 30);
+        let ky = if r.chance(2, 3) { (c + d * kx).clamp(-300, 300) } else { r.range(-30, 30) };
+        pts.push((enc(kx), enc(ky)));
+    }
+    pts
+}
+
 pub fn gen_case(r: &mut Rng, thorough: bool) -> Case {
+    if r.chance(1, 12) {
+        let pts = decimal_tenths(r);
+        let cont = pick_container(r, pts.len());
+        return Case { scalar: 0, pts, sh: -56, cont, cseed: r.next(), stratum: "decimal-tenths", full: true };
+    }
     let scalar = *r.pick(&[0usize, 0, 0, 0, 1, 1, 2, 2, 3, 3]);
     // magnitude of the "big" strata: a power of two between the point where products start to round
     // (floats) and the largest range without integer overflow / with exact coordinates
